@@ -1,6 +1,8 @@
 """C11 — replaying the recorded tick log reproduces the live run state."""
 from __future__ import annotations
 
+import json
+
 import asyncio
 
 from workflows.runtime.control_loop import rebuild_state_from_ticks
@@ -74,6 +76,8 @@ def setup(world, spec):
                 c["flags"].add("collected-in-state")
             if w["waiters"]:
                 c["flags"].add("waiter-in-state")
+        if a == b and not c["reported"] and rid in world.handlers:
+            _public_view(world, rid, rebuilt, len(ticks), tick)
         if a != b and not c["reported"]:
             from workflows.runtime.types.results import StepWorkerFailed
             from workflows.runtime.types.ticks import TickStepResult
@@ -118,6 +122,35 @@ def setup(world, spec):
             world.violate("C11.diverge", f"at the end of the run ({len(ticks)} journaled ticks) {key}: live={a[key]} replayed={b.get(key)}",
                           tick="end-of-run", failed_attempt=False, delay_based_stop=False)
     world.runner_exit_hooks.append(at_exit)
+
+
+def _public_view(world, rid, rebuilt, n_ticks, tick) -> None:
+    """What the handler's context shows through the public API (ctx.to_dict(), which reads ExternalContext._state) must be the
+    replay of the recorded ticks. Asked after EVERY tick on the same live handler, as a status poller or a periodic checkpointer
+    does. Both sides go through the same serialize -> deserialize normalisation so that only content can differ."""
+    from workflows.context.context_types import SerializedContext
+    from workflows.context.serializers import JsonSerializer
+    from workflows.runtime.types.internal_state import BrokerState
+    handler, wf = world.handlers[rid]
+    ser = JsonSerializer()
+    c = world._c11
+    try:
+        d = handler.ctx.to_dict()
+    except Exception as e:  # noqa: BLE001
+        c["reported"].add("public")
+        world.violate("C11.public-view", f"handler.ctx.to_dict() after tick #{n_ticks} ({type(tick).__name__}) raised {type(e).__name__}: {e}", how="raises")
+        return
+    c["flags"].add("public-view-polled")
+    try:
+        got = _abs(BrokerState.from_serialized(SerializedContext.from_dict_auto(json.loads(json.dumps(d, default=str))), wf, ser))
+        want = _abs(BrokerState.from_serialized(rebuilt.to_serialized(ser), wf, ser))
+    except Exception:  # noqa: BLE001
+        return      # (de)serialisation problems are C12's subject
+    if got != want:
+        key = next(k for k in want if want[k] != got.get(k))
+        c["reported"].add("public")
+        world.violate("C11.public-view", f"after tick #{n_ticks} ({type(tick).__name__}) handler.ctx.to_dict() shows {key}={got.get(key)} but the replay of the "
+                      f"recorded ticks gives {want[key]}", how="differs")
 
 
 def scenario(world, spec):
